@@ -569,15 +569,16 @@ func (w beWrapOf) Write(ctx context.Context, k []byte, v Tok) error {
 
 type simLogger struct{ r *foRun }
 
-func (l simLogger) rec(level, msg string) {
+func (l simLogger) rec(level, msg string, kv []interface{}) {
 	zs.Yield("log." + level)
+	renderLogArgs(kv)
 	l.r.logs = append(l.r.logs, logRec{seq: l.r.e.s.NextSeq(), level: level, msg: msg, task: l.r.e.s.CurID()})
 }
-func (l simLogger) Error(_ context.Context, msg string, _ ...interface{}) { l.rec("error", msg) }
-func (l simLogger) Debug(_ context.Context, msg string, _ ...interface{}) { l.rec("debug", msg) }
-func (l simLogger) Warn(_ context.Context, msg string, _ ...interface{})  { l.rec("warn", msg) }
-func (l simLogger) Important(_ context.Context, msg string, _ ...interface{}) {
-	l.rec("important", msg)
+func (l simLogger) Error(_ context.Context, msg string, kv ...interface{}) { l.rec("error", msg, kv) }
+func (l simLogger) Debug(_ context.Context, msg string, kv ...interface{}) { l.rec("debug", msg, kv) }
+func (l simLogger) Warn(_ context.Context, msg string, kv ...interface{})  { l.rec("warn", msg, kv) }
+func (l simLogger) Important(_ context.Context, msg string, kv ...interface{}) {
+	l.rec("important", msg, kv)
 }
 
 type simStats struct {
